@@ -18,6 +18,7 @@ import (
 	"strconv"
 	"strings"
 	"sync"
+	"sync/atomic"
 	"syscall"
 	"time"
 
@@ -26,6 +27,9 @@ import (
 )
 
 var names = []string{"verifd-A", "verifd-B", "verifd-C"}
+
+// dyingName: a daemon that dies before it calls Done() - Launch(dyingName) fails, which is outside the property
+const dyingName = "verifd-X"
 
 func appendEvent(m map[string]any) {
 	path := os.Getenv("VERIF_EVENT_FILE")
@@ -77,6 +81,10 @@ func init() {
 	for _, n := range names {
 		daemon.Register(n, handlerFor(n))
 	}
+	daemon.Register(dyingName, func() {
+		appendEvent(map[string]any{"e": "dying", "name": dyingName, "pid": os.Getpid()})
+		os.Exit(3)
+	})
 	if daemon.Run() {
 		os.Exit(0)
 	}
@@ -89,19 +97,50 @@ func caller() {
 	os.Setenv("VERIF_CALLER_MARK", "set-by-caller")
 	os.Unsetenv("VERIF_SECRET_2")
 	os.Unsetenv("VERIF_SECRET_3")
+	launch := func(k int, name string) {
+		appendEvent(map[string]any{"e": "begin", "name": name, "k": k})
+		pid, err := daemon.Launch(name)
+		msg := ""
+		if err != nil {
+			msg = err.Error()
+		}
+		appendEvent(map[string]any{"e": "ret", "name": name, "k": k, "pid": pid, "ok": err == nil, "err": msg, "callerpid": os.Getpid()})
+	}
+	switch os.Getenv("VERIF_CALLER_MODE") {
+	case "failfirst":
+		// the first daemon dies before Done(): that Launch fails (no verdict on it); the launches after it are ordinary ones
+		launch(100, dyingName)
+		for k := 0; k < n; k++ {
+			launch(k, names[k%len(names)])
+			if k == 0 {
+				launch(101, dyingName)
+			}
+		}
+		return
+	case "rounds":
+		for r := 0; r < n/3; r++ {
+			var wg sync.WaitGroup
+			var ready atomic.Int32
+			for j := 0; j < 3; j++ {
+				wg.Add(1)
+				go func(k int) {
+					defer wg.Done()
+					ready.Add(1)
+					for ready.Load() < 3 { // spin barrier: the three calls begin together
+					}
+					launch(k, names[k%len(names)])
+				}(r*3 + j)
+			}
+			wg.Wait()
+		}
+		return
+	}
 	var wg sync.WaitGroup
 	for k := 0; k < n; k++ {
 		wg.Add(1)
 		go func(k int) {
 			defer wg.Done()
-			name := names[k%len(names)]
-			appendEvent(map[string]any{"e": "begin", "name": name, "k": k})
-			pid, err := daemon.Launch(name)
-			msg := ""
-			if err != nil {
-				msg = err.Error()
-			}
-			appendEvent(map[string]any{"e": "ret", "name": name, "k": k, "pid": pid, "ok": err == nil, "err": msg, "callerpid": os.Getpid()})
+			launch(k, names[k%len(names)])
 		}(k)
 	}
 	wg.Wait()
@@ -164,30 +203,24 @@ func main() {
 	out := flag.String("out", "traces.ndjson", "")
 	work := flag.String("work", ".", "")
 	reps := flag.Int("reps", 1, "")
+	rounds := flag.Int("rounds", 8, "rounds of three concurrent launches in the rounds schedule")
 	slow := flag.Int("slow", 6000, "delay (ms) of the one slow-daemon schedule; 0 = none")
 	flag.Parse()
 	w := vio.Create(*out)
 	defer w.Close()
 	self, _ := os.Executable()
 	run := 0
-	for rep := 0; rep < *reps; rep++ {
-		delays := []int{0, 50}
-		if rep == 0 && *slow > 0 {
-			delays = append(delays, *slow) // "however slowly the daemon reaches Done()"
-		}
-		for _, delay := range delays {
-			for _, pause := range []int{0, 300} {
-				for _, nl := range []int{1, 3} {
-					if delay > 1000 && (pause != 0 || nl != 1) {
-						continue
-					}
+	schedule := func(delay, pause, nl int, mode string) {
+		{
+			{
+				{
 					run++
 					evfile := fmt.Sprintf("%s/daemon_events_%d.ndjson", *work, run)
 					os.Remove(evfile)
 					cmd := exec.Command(self)
 					cmd.Env = append(os.Environ(), "VERIF_ROLE=caller", "VERIF_EVENT_FILE="+evfile,
 						fmt.Sprintf("VERIF_DAEMON_DELAY_MS=%d", delay), fmt.Sprintf("VERIF_LAUNCHER_PAUSE_MS=%d", pause),
-						"VERIF_SECRET_1=s1", "VERIF_SECRET_2=s2", "VERIF_SECRET_3=s3", fmt.Sprintf("VERIF_NLAUNCH=%d", nl), fmt.Sprintf("VERIF_DAEMON_LIFE_MS=%d", 12000+delay))
+						"VERIF_CALLER_MODE="+mode, "VERIF_SECRET_1=s1", "VERIF_SECRET_2=s2", "VERIF_SECRET_3=s3", fmt.Sprintf("VERIF_NLAUNCH=%d", nl), fmt.Sprintf("VERIF_DAEMON_LIFE_MS=%d", 12000+delay))
 					cmd.Start()
 					callerPid := cmd.Process.Pid
 					done := make(chan struct{})
@@ -195,7 +228,7 @@ func main() {
 					hung := false
 					select {
 					case <-done:
-					case <-time.After(time.Duration(8000+delay) * time.Millisecond): // Done() happens within ~0.4 s + delay
+					case <-time.After(time.Duration(8000+delay+nl/3*2500) * time.Millisecond): // Done() happens within ~0.4 s + delay (per round of launches)
 						hung = true
 						cmd.Process.Kill()
 						<-done
@@ -225,9 +258,10 @@ func main() {
 						}
 					}
 					if hung {
-						for k := 0; k < nl; k++ {
-							if !returned[k] {
-								extra = append(extra, map[string]any{"e": "hang", "name": names[k%len(names)], "k": k})
+						for _, e := range evs { // calls that began and never returned
+							kf, _ := e["k"].(float64)
+							if k := int(kf); e["e"] == "begin" && !returned[k] && e["name"] != dyingName {
+								extra = append(extra, map[string]any{"e": "hang", "name": e["name"], "k": k})
 							}
 						}
 					}
@@ -253,10 +287,30 @@ func main() {
 							}
 						}
 					}
-					w.Put(map[string]any{"evs": append(evs, extra...), "delay": delay, "pause": pause, "launches": nl})
+					w.Put(map[string]any{"evs": append(evs, extra...), "delay": delay, "pause": pause, "launches": nl, "mode": mode})
 					os.Remove(evfile)
 				}
 			}
 		}
+	}
+	for rep := 0; rep < *reps; rep++ {
+		delays := []int{0, 50}
+		if rep == 0 && *slow > 0 {
+			delays = append(delays, *slow) // "however slowly the daemon reaches Done()"
+		}
+		for _, delay := range delays {
+			for _, pause := range []int{0, 300} {
+				for _, nl := range []int{1, 3} {
+					if delay > 1000 && (pause != 0 || nl != 1) {
+						continue
+					}
+					schedule(delay, pause, nl, "")
+				}
+			}
+		}
+		// a launch that fails (its daemon dies before Done()) followed, in the same process, by launches of healthy daemons
+		schedule(0, 0, 3, "failfirst")
+		// many rounds of three launches of different names released together from a spin barrier
+		schedule(0, 0, 3**rounds, "rounds")
 	}
 }
